@@ -297,15 +297,22 @@ func (h *baseHandler) flush() {
 	numUnsentMessages := func() int {
 		return len(h.lines) + len(h.serverMessages) + len(h.maprMessages)
 	}
-	for i := 0; i < 10; i++ {
+	// Wait until everything queued has been handed to the client, however slow
+	// it reads; only give up when the session itself is over.
+	for {
 		if numUnsentMessages() == 0 {
 			dlog.Server.Debug(h.user, "ALL lines sent", fmt.Sprintf("%p", h))
 			return
 		}
+		select {
+		case <-h.done.Done():
+			dlog.Server.Warn(h.user, "Some lines remain unsent", numUnsentMessages())
+			return
+		default:
+		}
 		dlog.Server.Debug(h.user, "Still lines to be sent")
 		time.Sleep(time.Millisecond * 10)
 	}
-	dlog.Server.Warn(h.user, "Some lines remain unsent", numUnsentMessages())
 }
 
 func (h *baseHandler) shutdown() {
